@@ -70,6 +70,26 @@ def parseReport (s : String) : Option (List (String × Nat)) :=
 
 def handle (kind : String) (args : List String) (impl : String) : String :=
   match kind, args with
+  | "c19.flt", toks =>
+    -- the filter counts every access under the name of its key, whole and unchanged: "reports for every key it still tracks
+    -- exactly the number of accesses"; eval, cluster, auth, scan and requests without arguments carry no key
+    let parsed := toks.mapM fun tk =>
+      match tk.splitOn ":" with
+      | [c, k] => (parseHex c).bind fun cb => if k == "-" then some (cb, none) else (parseHex k).map fun kb => (cb, some kb)
+      | _ => none
+    match parsed with
+    | none => "bad-op"
+    | some reqs =>
+      let lower (b : List UInt8) : List UInt8 := b.map fun x => if 65 ≤ x.toNat && x.toNat ≤ 90 then UInt8.ofNat (x.toNat + 32) else x
+      let keyless : List (List UInt8) := ["eval", "cluster", "auth", "scan"].map (fun s => s.toUTF8.toList)
+      let keys : List (List UInt8) := reqs.filterMap fun (c, k) => if keyless.contains (lower c) then none else match k with
+        | some kb => if kb.isEmpty then none else some kb
+        | none => none
+      let distinct := keys.eraseDups
+      let rows : List String := distinct.map fun k => s!"{toHex k}={keys.count k}"
+      let sorted := rows.foldr (fun x acc => (acc.takeWhile (fun y => y < x)) ++ x :: (acc.dropWhile (fun y => y < x))) []
+      let m := if sorted.isEmpty then "-" else ",".intercalate sorted
+      verdict impl m m
   | "c19.cnt", capS :: ops =>
     match capS.toNat? with
     | some cap =>
